@@ -27,6 +27,10 @@ type Case struct {
 	Mode string     `json:"m"` // exh | short | long | probe
 	Init int        `json:"i"`
 	Ops  []model.Op `json:"o"`
+	// Strict: a probe history that holds on the tree although it passes
+	// through an avoided class; a departure in it is reported with root=-
+	// (new) instead of being counted under that class's finding.
+	Strict bool `json:"s,omitempty"`
 }
 
 const slots = 3
@@ -203,10 +207,52 @@ var probes = []string{
 	"3| in 1; defun f0; export f0; in 0; import 1 f0",
 	"3| in 1; setq v0; in 0; import 1 v0; in 1; setq v0",
 	"3| in 1; defun f1; export f1; fmakunbound f1; in 2; use 1; in 1; defun f1; unexport f1; in 2; defun f1",
+	// export / unexport / define orderings on names that are not defined yet,
+	// seen from a package that uses the defining one. They pass through the
+	// avoided class export/undefined but hold on the tree: strict (a departure
+	// here is new, e.g. a defun that inherits a stale export flag).
+	"!3| in 1; use 0; in 0; export f0; unexport f0; defun f0",
+	"!3| in 1; use 0; in 0; export f0; defun f0; unexport f0",
+	"!3| in 1; use 0; in 0; export f0; defun f0",
+	"!3| in 1; use 0; in 0; export f0; unexport f0; defun f0; export f0; unexport f0",
+	"!3| in 1; use 0; in 0; export f0; unexport f0; defun f0; fmakunbound f0; defun f0",
+	"!3| export f0; unexport f0; defun f0; in 1; use 0",
+	"!3| export f0; defun f0; unexport f0; in 1; use 0",
+	"!3| export f0; defun f0; in 1; use 0",
+	"!3| in 1; use 0; in 0; export v0; unexport v0; defvar v0",
+	"!3| in 1; use 0; in 0; export v0; defvar v0; unexport v0",
+	"!3| in 1; use 0; in 0; export v0; defvar v0",
+	"!3| in 1; use 0; in 0; export v0; unexport v0; setq v0",
+	"!3| in 1; use 0; in 0; export v0; setq v0; unexport v0",
+	"!3| in 1; use 0; in 0; export v0; unexport v0; setq v0; export v0; unexport v0",
+	"!3| export v0; unexport v0; defvar v0; in 1; use 0",
+	"!3| export v0; defvar v0; unexport v0; in 1; use 0",
+	"!3| export v0; unexport v0; setq v0; in 1; use 0",
+	"!3| export v0; setq v0; in 1; use 0",
+	// the Go-level (*Package).Import: import then unuse, redefinition in the
+	// home package, assignment through the import, not passed on to users
+	"3| in 1; setq v0; in 0; import 1 v0; use 1; unuse 1",
+	"3| in 1; setq v0; export v0; in 0; use 1; import 1 v0; unuse 1",
+	"3| in 1; setq v0; in 0; import 1 v0; in 1; setq v0; in 0",
+	"3| in 1; setq v0; in 0; import 1 v0; in 1; makunbound v0; setq v0; in 0",
+	"3| in 1; defun f0; in 0; import 1 f0; in 1; defun f0; in 0",
+	"3| in 1; defun f0; in 0; import 1 f0; in 1; fmakunbound f0; defun f0; in 0",
+	"3| in 1; setq v0; in 0; import 1 v0; setq v0; in 1",
+	"3| in 1; setq v0; defun f0; in 0; import 1 v0; import 1 f0; in 2; use 0",
+	"3| in 1; setq v0; in 0; import 1 v0; in 1; unintern v0; in 0",
+	// documented package functions outside the property's list
+	"3| in 1; setq v0; export v0; in 0; use 1; delete 1; unuse 1; delete 1; defpackage 1; in 1; setq v1; in 0",
+	"3| in 1; setq v0; export v0; defun f0; export f0; in 0; use 1; rename 1; in 1; setq v0; rename 1; in 0; unuse 1",
+	"3| intern v0; in 1; setq v0; export v0; in 0; use 1; unintern v0; setq v0; unintern v0",
+	"3| in 1; setq v0; export v0; in 0; use 1; intern v0; unintern v0",
 }
 
 func parseProbe(src string) Case {
 	c := Case{Mode: "probe"}
+	if rest, strict := strings.CutPrefix(src, "!"); strict {
+		c.Strict = true
+		src = rest
+	}
 	head, body, _ := strings.Cut(src, "|")
 	fmt.Sscan(head, &c.Init)
 	for _, part := range strings.Split(body, ";") {
@@ -216,7 +262,7 @@ func parseProbe(src string) Case {
 		}
 		op := model.Op{K: f[0]}
 		switch f[0] {
-		case "in", "use", "unuse":
+		case "in", "use", "unuse", "delete", "rename":
 			fmt.Sscan(f[1], &op.P)
 		case "import":
 			fmt.Sscan(f[1], &op.P)
@@ -340,19 +386,31 @@ var opKinds = []struct {
 }{
 	{"in", 10}, {"use", 10}, {"unuse", 7}, {"export", 12}, {"unexport", 7},
 	{"setq", 10}, {"defvar", 4}, {"defun", 10}, {"makunbound", 5}, {"fmakunbound", 5},
-	{"defpackage", 6}, {"import", 0},
+	{"defpackage", 6},
 }
 
-func randOp(r *rand.Rand, w *model.World, withImport bool) model.Op {
+// extKinds are only generated in histories with extended operations:
+// documented package functions outside the property's list and the Go-level
+// (*Package).Import.
+var extKinds = []struct {
+	k string
+	w int
+}{
+	{"import", 6}, {"delete", 3}, {"rename", 3}, {"intern", 3}, {"unintern", 3},
+}
+
+func randOp(r *rand.Rand, w *model.World, ext bool) model.Op {
 	total := 0
 	for _, ok := range opKinds {
 		total += ok.w
 	}
-	if withImport {
-		total += 4
+	if ext {
+		for _, ok := range extKinds {
+			total += ok.w
+		}
 	}
 	x := r.IntN(total)
-	k := "import"
+	k := ""
 	for _, ok := range opKinds {
 		if x < ok.w {
 			k = ok.k
@@ -360,16 +418,25 @@ func randOp(r *rand.Rand, w *model.World, withImport bool) model.Op {
 		}
 		x -= ok.w
 	}
+	if k == "" {
+		for _, ok := range extKinds {
+			if x < ok.w {
+				k = ok.k
+				break
+			}
+			x -= ok.w
+		}
+	}
 	op := model.Op{K: k}
 	switch k {
-	case "in", "use", "unuse", "import":
+	case "in", "use", "unuse", "import", "delete", "rename":
 		op.P = r.IntN(slots)
 		if k == "import" {
 			op.N = fw.Pick(r, allNames)
 		}
 	case "export", "unexport":
 		op.N = fw.Pick(r, allNames)
-	case "setq", "defvar", "makunbound":
+	case "setq", "defvar", "makunbound", "intern", "unintern":
 		op.N = fw.Pick(r, varNames)
 	case "defun", "fmakunbound":
 		op.N = fw.Pick(r, funNames)
@@ -392,12 +459,12 @@ func randOp(r *rand.Rand, w *model.World, withImport bool) model.Op {
 // genRandom builds a history of n steps by simulating the model: operations
 // the property does not determine are not generated, and at most the
 // operation classes in allow may be taken from the avoid set.
-func genRandom(r *rand.Rand, n, init int, allow map[string]bool, withImport bool) Case {
+func genRandom(r *rand.Rand, n, init int, allow map[string]bool, ext bool) Case {
 	w := model.New(slots, init)
 	c := Case{Init: init}
 	d := dirty()
 	for step := 0; len(c.Ops) < n && step < n*20; step++ {
-		op := randOp(r, w, withImport)
+		op := randOp(r, w, ext)
 		cls, ok := w.Classify(op)
 		if !ok {
 			continue
@@ -405,7 +472,9 @@ func genRandom(r *rand.Rand, n, init int, allow map[string]bool, withImport bool
 		if d.has(cls) && !allow[avoidKey(d, cls)] {
 			continue
 		}
-		w.Apply(op, len(c.Ops)+1, len(c.Ops)+1)
+		if !w.ExpectError(op) {
+			w.Apply(op, len(c.Ops)+1, len(c.Ops)+1)
+		}
 		c.Ops = append(c.Ops, op)
 	}
 	return c
@@ -456,12 +525,12 @@ func gen(r *rand.Rand, i int, tier string) Case {
 	}
 	if i < nShort(tier) {
 		// lengths 5..8: the part of the stated bound beyond the exhaustive depth, sampled
-		c := genRandom(r, 5+r.IntN(4), slots, allow, false)
+		c := genRandom(r, 5+r.IntN(4), slots, allow, r.IntN(4) == 0)
 		c.Mode = "short"
 		return c
 	}
 	n := []int{12, 25, 50, 100, 200, 200}[r.IntN(6)]
-	c := genRandom(r, n, 1+r.IntN(slots), allow, r.IntN(5) == 0)
+	c := genRandom(r, n, 1+r.IntN(slots), allow, r.IntN(3) == 0)
 	c.Mode = "long"
 	return c
 }
@@ -538,6 +607,14 @@ func (rw *world) render(op model.Op, val int) string {
 		return b.String()
 	case "import":
 		return fmt.Sprintf("#go: (*Package %s).Import(%s, %q)", "current", rw.names[op.P], op.N)
+	case "delete":
+		return fmt.Sprintf("(delete-package '%s)", rw.names[op.P])
+	case "rename":
+		return fmt.Sprintf("(rename-package '%s '%sr%d)", rw.names[op.P], rw.names[op.P], val)
+	case "intern":
+		return fmt.Sprintf("(intern %q)", op.N)
+	case "unintern":
+		return fmt.Sprintf("(unintern '%s)", op.N)
 	}
 	return "?"
 }
@@ -787,18 +864,48 @@ func run(x counter, c Case) (res result) {
 		val := si + 1
 		src := rw.render(op, val)
 		res.trace = append(res.trace, src)
+		wantErr := w.ExpectError(op)
+		wantStatus := ""
+		if op.K == "intern" {
+			wantStatus = internStatus(w, op.N)
+		}
 		var err *sl.Err
+		var value slip.Object
 		if op.K == "import" {
 			err = sl.Catch(func() { slip.CurrentPackage.Import(slip.FindPackage(rw.names[op.P]), op.N) })
 		} else {
-			_, err = rw.eval(src)
+			value, err = rw.eval(src)
 		}
-		w.Apply(op, val, val)
+		var opDis *discrepancy
+		switch {
+		case wantErr && err == nil:
+			opDis = &discrepancy{got: "operation-not-refused", kind: "-", via: "-", msg: src + " must be refused (package still in use)"}
+		case wantErr:
+			err = nil // refused as documented; nothing changes
+		case err != nil:
+		case op.K == "rename":
+			old := rw.names[op.P]
+			rw.names[op.P] = fmt.Sprintf("%sr%d", old, val)
+			if t, ok := rw.truth(fmt.Sprintf("(find-package '%s)", old)); !ok || t {
+				opDis = &discrepancy{got: "old-name-still-resolves", kind: "-", via: "-", msg: "(find-package '" + old + ") after " + src}
+			}
+		case wantStatus != "":
+			got := "?"
+			if vs, ok := value.(slip.Values); ok && len(vs) == 2 {
+				got = sl.Show(vs[1])
+			}
+			if got != wantStatus {
+				opDis = &discrepancy{got: "intern-status", kind: "var", via: "unq", msg: fmt.Sprintf("%s => status %s, model: %s", src, got, wantStatus)}
+			}
+		}
+		if !wantErr {
+			w.Apply(op, val, val)
+		}
 		res.step++
 		x.Cover("op:" + cls)
 		if d.has(cls) {
 			x.Cover("avoided-class-executed:" + cls)
-			if root == "-" {
+			if root == "-" && !c.Strict {
 				root = cls
 			}
 		}
@@ -807,6 +914,8 @@ func run(x counter, c Case) (res result) {
 		switch {
 		case err != nil:
 			dis = &discrepancy{got: "operation-error", kind: "-", via: "-", msg: src + " => " + err.String()}
+		case opDis != nil:
+			dis = opDis
 		case c.Mode == "exh" && si < len(c.Ops)-2:
 			// every prefix is a case of its own: an exhaustive case looks at
 			// the state before and after its last operation only
@@ -832,11 +941,42 @@ func run(x counter, c Case) (res result) {
 	return
 }
 
+// internStatus is the second value (intern name) must return in the current
+// package, or "" where the model leaves it open: :internal for an own
+// definition, :inherited for a definition of a used package, nil when nothing
+// of that name is accessible.
+func internStatus(w *model.World, name string) string {
+	c := w.Cur
+	pk := w.Pkgs[c]
+	if _, own := w.Own(c, name); own {
+		return ":internal"
+	}
+	if pk.Exp[name] != model.No || pk.Interned[name] {
+		return ""
+	}
+	if _, imp := pk.Imp[model.KindOf(name)][name]; imp {
+		return ""
+	}
+	e := w.Resolve(c, name)
+	switch {
+	case len(e.Must) == 1 && len(e.May) == 0:
+		return ":inherited"
+	case len(e.Must) == 0 && len(e.May) == 0:
+		for _, q := range pk.Uses {
+			if w.Pkgs[q].Exp[name] != model.No {
+				return ""
+			}
+		}
+		return "nil"
+	}
+	return ""
+}
+
 // shrink removes operations from a failing history while it keeps failing
 // with a departure in a history free of avoided classes; the result is only
 // used to make the message of a new violation readable.
 func shrink(c Case, failStep int) (Case, result) {
-	best := Case{Mode: "shrunk", Init: c.Init, Ops: append([]model.Op{}, c.Ops[:failStep]...)}
+	best := Case{Mode: "shrunk", Init: c.Init, Strict: c.Strict, Ops: append([]model.Op{}, c.Ops[:failStep]...)}
 	bres := run(noCount{}, best)
 	if bres.sig == "" {
 		return c, bres
@@ -852,7 +992,7 @@ func shrink(c Case, failStep int) (Case, result) {
 			if len(best.Ops) < at+chunk {
 				continue
 			}
-			try := Case{Mode: "shrunk", Init: best.Init}
+			try := Case{Mode: "shrunk", Init: best.Init, Strict: best.Strict}
 			try.Ops = append(try.Ops, best.Ops[:at]...)
 			try.Ops = append(try.Ops, best.Ops[at+chunk:]...)
 			budget--
@@ -916,8 +1056,8 @@ func init() {
 	fw.Register(fw.Spec[Case]{
 		ID: "C13",
 		Rule: "a case is a history of package operations (in-package, use-package, unuse-package, export, unexport, setq, defvar, defun, makunbound, fmakunbound; " +
-			"in the long block also defpackage with :use/:export and the Go-level Import) over 3 user packages x 2 variable x 2 function names, run in fresh packages; " +
-			"block 0 = 33 hand-written probe histories (seed-independent); " +
+			"in the long block also defpackage with :use/:export and, in a third of them, delete-package, rename-package, intern, unintern and the Go-level Import) over 3 user packages x 2 variable x 2 function names, run in fresh packages; " +
+			"block 0 = 64 hand-written probe histories (seed-independent; the strict ones pass through an avoided class but must hold); " +
 			"block 1 = EVERY history of length 1..4 (quick) / 1..5 (thorough) up to renaming of packages and names (bounded-exhaustive: 73 246 / 1 520 638 cases; " +
 			"each looks at the state before and after its last operation, its prefixes being cases of their own); " +
 			"block 2 = seeded histories of length 5..8 (sampled, NOT exhaustive: the stated bound 8 is only reached this way); " +
